@@ -348,7 +348,10 @@ def run(rep, ctx):
     for g in all_of("mp::pre::CopyLink::CopySrcDest")[:1] + all_of("mp::pre::CopyLink::CopyDestSrc")[:1]:
         cp = calls(g, name="Copy")
         want = ["br.first", "br.second"] if g.name == "CopySrcDest" else ["br.second", "br.first"]
-        t1.check(len(cp) == 1 and [render(a) for a in call_args(cp[0])] == want, "CopyLink|%s|direction" % g.name, short_loc(g.loc),
+        # which member of the entry is the source and which the target - however the entry is reached (reference, iterator, index)
+        gotm = [next((x.get("name") for x in walk(a) if x["k"] == "MemberExpr" and x.get("name") in ("first", "second")), render(a))
+                for a in call_args(cp[0])] if len(cp) == 1 else []
+        t1.check(len(cp) == 1 and gotm == [w.split(".")[1] for w in want], "CopyLink|%s|direction" % g.name, short_loc(g.loc),
                  "%s copies %s -> %s" % (g.name, want[0], want[1]))
     # typed range link
     for f in all_of("mp::RangeConstraintConverter::GetSlackLink"):
